@@ -194,6 +194,7 @@ const prelude = `
 (declare-fun styp (Int) Int)
 (declare-fun strlen (Int) Int)
 (assert (forall ((x Int)) (! (and (<= 0 (strlen x)) (<= (strlen x) 281474976710656)) :pattern ((strlen x)))))
+(assert (= (strlen 0) 0))
 (declare-fun band (Int Int) Int)
 (declare-fun bor (Int Int) Int)
 (declare-fun bxor (Int Int) Int)
